@@ -6,6 +6,7 @@ with a fresh configure, bounded launches (no livelock), quiescence."""
 
 import os
 import random
+import re
 
 from . import gen as G
 from . import sim as S
@@ -220,7 +221,26 @@ class EditGen:
             # a submodule script: add another search below the submodule
             return [['append', s, "more{0} = find_files('**/*.h')\n"
                      .format(self.n)]], 'script_semantic:submodule'
-        choice = rng.randrange(3)
+        choice = rng.randrange(4)
+        if choice == 3:
+            # delete a search whose result nothing else in the script uses
+            text = self.world.read(s)
+            lines = text.split('\n')
+            cands = []
+            for i, line in enumerate(lines):
+                m = re.match(r'^(\w+) = find_(files|paths)\(', line)
+                if m and len(re.findall(r'\b{}\b'.format(m.group(1)),
+                                        text)) == 1:
+                    cands.append(i)
+            if cands:
+                if rng.random() < 0.3:
+                    drop = set(cands)          # every unused search at once
+                else:
+                    drop = {rng.choice(cands)}
+                new = '\n'.join(l for i, l in enumerate(lines)
+                                if i not in drop)
+                return [['write', s, new]], 'script_semantic:drop_find'
+            choice = 0
         if choice == 0:
             d = rng.choice(dirs)
             pat = rng.choice(['{}/*.dat', '{}/**/*.txt', '{}/*.c',
